@@ -103,7 +103,11 @@ def cases(tier, rng, boost=1):
         else:
             n = rng.randint(1, 5)
             M = [[rng.choice([0, 0, 1, 2, 3, 5]) / rng.choice([1, 2, 4, 8]) for _ in range(n)] for _ in range(n)]
-            yield {'op': 'utils', 'kind': kind, 'M': M, 'k': rng.randint(0, 6), 'sub': 'utils', 'src': 'rand'}
+            # memory layout / dtype of the argument: the compiled and the interpreted function must accept the same arrays (an eager numba signature would not)
+            layout = rng.choice(['c', 'c', 'fortran', 'strided', 'readonly', 'int64', 'int32', 'uint8']) if kind == 'rownorm' else rng.choice(['c', 'c', 'fortran', 'strided'])
+            if layout in ('int64', 'int32', 'uint8'):
+                M = [[float(rng.choice([0, 0, 1, 2, 3, 5, 17])) for _ in range(n)] for _ in range(n)]
+            yield {'op': 'utils', 'kind': kind, 'M': M, 'k': rng.randint(0, 6), 'sub': 'utils', 'src': 'rand', 'layout': layout}
 
 
 def _real_objhist(case):
@@ -149,11 +153,24 @@ def real(case):
         return SUB[case['sub']].real(case)
     import msmhelper as mh
 
+    def arr():
+        a = np.array(case['M'], dtype=np.float64)
+        lay = case.get('layout', 'c')
+        if lay == 'fortran':
+            a = np.asfortranarray(a)
+        elif lay == 'strided':
+            a = np.repeat(a, 2, axis=1)[:, ::2]
+        elif lay == 'readonly':
+            a.setflags(write=False)
+        elif lay in ('int64', 'int32', 'uint8'):
+            a = a.astype(lay)
+        return a
+
     def run():
         if case['kind'] == 'rownorm':
-            return [[core.rat_str(float(v)) for v in row] for row in mh.msm.row_normalize_matrix(np.array(case['M'], dtype=np.float64))]
+            return [[core.rat_str(float(v)) for v in row] for row in mh.msm.row_normalize_matrix(arr())]
         if case['kind'] == 'matpow':
-            return [[core.rat_str(float(v)) for v in row] for row in mh.utils.matrix_power(np.array(case['M'], dtype=np.float64), case['k'])]
+            return [[core.rat_str(float(v)) for v in row] for row in mh.utils.matrix_power(arr(), case['k'])]
         return int(mh.utils.find_first(case['val'], np.array(case['list'], dtype=np.int64)))
     out = core.call(run)
     out.pop('msg', None)
